@@ -271,6 +271,30 @@ theorem register_limit_exact (caps : List (Nat × Nat)) (s : Net) (h : Reach cap
   rw [← caps_constant caps s h, List.getElem?_map, hn]
   rfl
 
+/-! ### refusals consume nothing (added after seeded change C07 r6m1: a register counter bumped before the
+   limit test and not restored on refusal) -/
+
+/-- a refused creation is refused again and changes nothing: the state after the refusal is the state
+before it, in particular the node's register count and held count (no slot is consumed by a refusal) -/
+theorem refused_create_keeps_state (s : Net) (a : Nat) (n : Node) (hw : WF s) (hn : s.nodes[a]? = some n)
+    (hfull : n.maxQubits ≤ held s a ∨ n.maxRegs ≤ n.numRegs) : (step s (.new a)).1 = s := by
+  obtain ⟨_, h2, h3, h4⟩ := create_iff s a n hw hn
+  by_cases hq : n.maxQubits ≤ held s a
+  · exact h4 _ (h2.2 hq)
+  · rcases hfull with h | h
+    · exact absurd h hq
+    · exact h4 _ (h3.2 ⟨by omega, h⟩)
+
+/-- any number of refused creations in a row leaves the state as it was -/
+theorem refused_creates_keep_state (s : Net) (a : Nat) (n : Node) (hw : WF s) (hn : s.nodes[a]? = some n)
+    (hfull : n.maxQubits ≤ held s a ∨ n.maxRegs ≤ n.numRegs) (k : Nat) :
+    (List.replicate k (Op.new a)).foldl (fun s op => (step s op).1) s = s := by
+  induction k with
+  | zero => rfl
+  | succ k ih =>
+    rw [List.replicate_succ, List.foldl_cons, refused_create_keeps_state s a n hw hn hfull]
+    exact ih
+
 /-! ### non-vacuity: concrete histories -/
 
 /-- node 0 may hold 1 qubit: the second create is refused, after a destructive measurement the next
